@@ -43,6 +43,7 @@ layout::layout() : _parse(0), _alias(0), _font(0)
 layout::~layout()
 {
 	mpt_string_set(&_alias, 0, 0);
+	mpt_string_set(&_font, 0, 0);
 	delete _parse;
 }
 // metatype interface
